@@ -616,8 +616,14 @@ def check_start_hooks(ctx):
                     viol(ctx, f"hook:{kind}:rows", "pre_decoder_hook did not produce B*k forced actions", {"env": name, "B": B, "k": int(k)})
                     continue
                 branch = ""
+                gen = getattr(env.generator, "num_loc", NO_NUM_LOC)
+                nLocs = td0["locs"].shape[-2] if "locs" in td0.keys() else nAct
+                mf = parse_fields(ctx.driver.ask(f"ops.starts {name} {B} {int(k)} {gen} {nAct} {nLocs}"))
+                if name != "op" and sel != csv(mf["hookbeam" if kind == "beam" else "hookms"]):
+                    ctx.disagreement("forced starts of the pre_decoder_hook are not those of env.select_start_nodes",
+                                     {"env": name, "kind": kind, "B": B, "k": int(k), "real": sel,
+                                      "model": csv(mf["hookbeam" if kind == "beam" else "hookms"])})
                 if name == "svrp":
-                    mf = parse_fields(ctx.driver.ask(f"ops.starts svrp {B} {int(k)} {env.generator.num_loc} {nAct} {td0['locs'].shape[-2]}"))
                     branch = ":generic-rule" if sel == csv(mf["method"]) else ":other"
                 _starts_oracle(ctx, name, mask, sel, B, int(k), lo, extra={"via": f"{kind} pre_decoder_hook", "requested": w}, branch=branch)
                 ctx.count(f"hook.{kind}." + ("default" if w is None else ("k>customers" if w > M else "k<=customers")))
@@ -945,6 +951,28 @@ def check_gather_default(ctx):
                          "(instance, augmentation): shape [B,A,A,L]", {"B": B, "S": S, "A": A, "shape": list(out.shape)})
 
 
+def check_gather_by_index(ctx):
+    """`gather_by_index(src[B,N,…], idx[B,S] or [B], dim=1, squeeze)`: shape (does the step dimension survive?) and
+    entries, for squeeze True / False / default"""
+    from rl4co.utils.ops import gather_by_index
+
+    for B in (1, 2, 3):
+        for N in (1, 2, 4):
+            src = (torch.arange(B * N).reshape(B, N, 1)).contiguous()
+            for S in (1, 2, 3):
+                idx = torch.tensor([[ctx.rng.randrange(N) for _ in range(S)] for _ in range(B)], dtype=torch.long)
+                for sq in (0, 1, 2):
+                    f = parse_fields(ctx.driver.ask(f"ops.gather2 {B} {N} {S} {sq} | {ilist(idx.flatten().tolist())}"))
+                    variants = [idx] + ([idx[:, 0]] if S == 1 else [])  # a [B] index is the one-step case after the view
+                    for ix in variants:
+                        out = gather_by_index(src, ix) if sq == 2 else gather_by_index(src, ix, squeeze=bool(sq))
+                        ctx.count("gather_by_index." + ("step-kept" if out.dim() == 3 else "step-squeezed"))
+                        ctx.case(("gbi", B, N, S, sq, ix.dim(), tuple(idx.flatten().tolist())), nontrivial=N > 1)
+                        if list(out.shape) != csv(f["shape"]) or out.reshape(-1).tolist() != csv(f["flat"]):
+                            ctx.disagreement("gather_by_index", {"B": B, "N": N, "S": S, "squeeze": sq, "idx_dim": ix.dim(),
+                                                                 "real_shape": list(out.shape), "model_shape": csv(f["shape"])})
+
+
 def _check_best_of_all(ctx, who, out, B, A, S, pol, seed):
     """validation outputs: max_reward / max_aug_reward and the 'best … actions' must be, per instance, the
     maximum over that instance's own rollouts and the actions of that very rollout"""
@@ -1155,6 +1183,7 @@ def run_c12(ctx):
     check_sample_n(ctx)
     check_select_best(ctx)
     check_gather_default(ctx)
+    check_gather_by_index(ctx)
     check_users(ctx)
     check_eval(ctx)
     check_am_decoder(ctx)
@@ -1464,6 +1493,17 @@ def check_index_batches(ctx):
                          "requested order (with their own extra values)", {"route": route, "requested": idx,
                                                                            "delivered": _batch_ids(b) if isinstance(b, TensorDict) else None})
             ctx.count(f"fetch.{tag}.{route}", len(crafted))
+    # the three classes as model functions (`tddFetch`, `fastGetitems`, `fastGenGetitems`) on the same index lists
+    reps = ctx.driver.ask_many([f"ops.tdfetch {n} | {ilist(idx)}" for idx in crafted])
+    for (cname, cls), field in zip(_dataset_classes(), ("tdd", "fast", "fastgen")):
+        ds = cls(src.clone())
+        for idx, r in zip(crafted, reps):
+            cols = dict(kv.split(":") for kv in parse_fields(r)[field].split(";")) if parse_fields(r).get(field) else {}
+            b = ds.collate_fn(ds.__getitems__(list(idx))) if hasattr(ds, "__getitems__") else ds.collate_fn([ds[i] for i in idx])
+            real = _batch_ids(b) if isinstance(b, TensorDict) else None
+            if real != csv(cols.get("id", "")) or [v + 100 for v in (real or [])] != csv(cols.get("x", "")):
+                ctx.disagreement("data set class as model function", {"class": cname, "idx": idx, "real_ids": real, "model": cols})
+        ctx.count(f"fetch.model.{cname}", len(crafted))
     ctx.sample({"what": "explicit index batches", "examples": crafted[:4], "classes": [v[0] for v in variants]})
 
 
@@ -1604,7 +1644,7 @@ NOTE_S = ("feasibility of a forced start is a statement about the environment's 
           "(`starts_prefix`: instance b is forced to lo, lo+1, …, lo+k-1), the mask part is the env families' reset lemma; the "
           "harness evaluates the real reset masks of the bundled generators")
 NOTE_PD = ("translator tie (C17): `Params.dsExtraWriteUnconditional`, `dsExtraIndexShift`, `dsFastTdDirect`, `dsFastGenDirect`, "
-           "`dsCollateInOrder`, `blRolloutPlainConcat`, `blRolloutLoaderPlain`, `loaderShufflePassthrough`, `evalCatInOrder`, `evalPadLeft` "
+           "`dsCollateInOrder`, `dsInitRowsInOrder`, `blRolloutPlainConcat`, `blRolloutLoaderPlain`, `loaderShufflePassthrough`, `evalCatInOrder`, `evalPadLeft` "
            "are regenerated from the sources and unfolded by the C17 proofs (a guarded write, a `__getitems__` fast path or a "
            "buffer-offset rollout breaks `readExtra_eq` / `fetch_eq` / `rollout_aligned` at build)")
 NOTE_D = ("DataLoader's sampler (sequential / permutation) and batch sampler are modelled as `chunks` of an index order "
@@ -1661,6 +1701,21 @@ C12_THEOREMS = [
     T("Rl4co.Ops.unbatchify_skip_zero", "proved", "zero factors are skipped (POMO's (n_aug=0, n_start))"),
     T("Rl4co.Ops.rearrange_unbatchify", "proved", "AM decoder: rearrange 'b s -> (s b)' after unbatchify(td, S) is the identity on rows"),
     T("Rl4co.Ops.unbatchifyAndGather_get", "proved", "unbatchify_and_gather(x, idx, k)[b] = x[idx b * B + b]"),
+    T("Rl4co.Ops.batchifyTD_row", "proved", "TensorDicts: at EVERY key path (nested entries included) row r of the expansion is row r mod B"),
+    T("Rl4co.Ops.unbatchifyTD_batchifyTD", "proved", "TensorDicts: expansion followed by its inverse is the identity at every key path"),
+    T("Rl4co.Ops.am_static_roundtrip", "proved", "AM decoder static path with the extracted unbatchify / '(s b)' flatten: row r comes back at row r"),
+    T("Rl4co.Ops.am_dynamic_pairing", "proved", "AM decoder dynamic path: PrecomputedCache.batchify pairs state row r with the cache of instance r mod B"),
+    T("Rl4co.Ops.gatherIdx_step_survives", "proved", "gather_by_index [B,N,…]/[B,S]: result [B,S,…] with [b][s] = src[b][idx b s] iff S ≠ 1 or squeeze=False"),
+    T("Rl4co.Ops.gatherIdx_step_lost", "proved", "… a single step with squeeze=True drops the step dimension"),
+    T("Rl4co.Ops.gatherIdx_default_one_step", "proved", "the default call drops a one-step dimension; squeeze=False keeps it for every S (root of fix f2d5960)"),
+    T("Rl4co.Ops.hookRule_eq_envRule", "proved", "multistart and beam-search pre_decoder_hook use the env's own select_start_nodes (overrides not bypassed)"),
+    T("Rl4co.Ops.sampleN_rows", "proved", "sample_n_random_actions: rows j·B+b hold feasible actions of instance b, distinct unless the replacement branch"),
+    T("Rl4co.Spec.Ops.expandOk_iff", "proved", "Spec sanity: expandOk ⇔ ∀ r, tag r = r mod B"),
+    T("Rl4co.Spec.Ops.bestOk_iff", "proved", "Spec sanity: bestOk ⇔ returned value bounds all rollouts ∧ is attained by the chosen one"),
+    T("Rl4co.Spec.Ops.bestOk_value_unique", "proved", "Spec sanity: the accepted best value is unique"),
+    T("Rl4co.Spec.Ops.startsOk_iff", "proved", "Spec sanity: with ≥ k feasible starts, startsOk ⇔ all feasible ∧ Nodup"),
+    T("Rl4co.Spec.Ops.startsOk_of", "proved", "Spec sanity: feasible pairwise distinct starts are always accepted"),
+    T("Rl4co.Spec.Ops.startsFeasStrong_imp", "proved", "Spec sanity: the strong feasibility oracle implies the text's"),
     T("Rl4co.Ops.starts_row", "proved", "forced start of row r is (r div B) mod m + lo"),
     T("Rl4co.Ops.starts_prefix", "proved", "k <= m: instance b is forced to exactly lo..lo+k-1"),
     T("Rl4co.Ops.starts_distinct", "proved", "k <= #startable => forced starts of an instance are pairwise distinct"),
@@ -1706,6 +1761,13 @@ C17_THEOREMS = [
     T("Rl4co.Ops.rollout_aligned", "proved", "RowWise f => concatenated per-batch rewards = map g ds, any evaluation batch size"),
     T("Rl4co.Ops.wrap_aligned", "proved", "item i of the wrapped data set = (instance i, baseline reward of instance i)"),
     T("Rl4co.Ops.wrap_travels", "proved", "through any order and batch size each delivered pair is (ds[i], g ds[i])"),
+    T("Rl4co.Ops.tdd_fetch_eq_index", "proved", "TensorDictDataset (__init__ / __getitem__ / collate_fn as functions) delivers td[idxs] for ANY non-empty index list"),
+    T("Rl4co.Ops.all_classes_agree", "proved", "FastTdDataset.__getitems__, FastGeneration.__getitems__ and TensorDictDataset deliver the same td[idxs] (gaps, repetitions, any order)"),
+    T("Rl4co.Ops.loader_roundtrip_perm", "proved", "any index sequence (any sampler): returned instances = the sequence mapped through the data set; a permutation returns each exactly once"),
+    T("Rl4co.Ops.loader_batches", "proved", "the j-th batch is the j-th chunk of the index sequence mapped through the data set"),
+    T("Rl4co.Spec.Ops.fetchOk_iff", "proved", "Spec sanity: fetchOk ⇔ delivered = requested ∧ extras aligned"),
+    T("Rl4co.Spec.Ops.loaderOk_seq", "proved", "Spec sanity: without shuffling loaderOk pins ids to 0..n-1, sizes full except the last"),
+    T("Rl4co.Spec.Ops.loaderOk_shuffle", "proved", "Spec sanity: with shuffling every instance exactly once, extras aligned"),
     T("Rl4co.Ops.fetch_eq", "proved", "every fetch path (collate / __getitems__ of both fast classes, extracted shapes) delivers the index list as given"),
     T("Rl4co.Ops.readExtra_eq", "proved", "ExtraKeyDataset.__getitem__ (extracted: unconditional write, index idx) overwrites the key with extra[idx]"),
     T("Rl4co.Ops.moduleOrder_sequential", "proved", "_dataloader_single(shuffle=False) reads sequentially (extracted shuffle=shuffle)"),
@@ -1716,12 +1778,12 @@ C17_THEOREMS = [
     T("Rl4co.Ops.readMany_current", "proved", "the same for a whole pass over any index list (any order, repetitions) from any store"),
 ]
 
-NOTE_P = ("translator tie: `Params.opsLoopsReversed`, `opsNumStartsDepotEnvs`, `opsNoDepotStartEnvs`, `opsOpClampMin`, `opsOpArgsortStable`, `opsOpCountPerInstance`, `opsNoDepotInterleave`, `opsDepotInterleave`, `opsDepotArangeStart`, `opsDepotModAdd`, `opsDepotPlus`, "
+NOTE_P = ("translator tie: `Params.opsLoopsReversed`, `opsNumStartsDepotEnvs`, `opsNoDepotStartEnvs`, `opsOpClampMin`, `opsOpArgsortStable`, `opsOpCountPerInstance`, `opsNoDepotInterleave`, `opsDepotInterleave`, `opsDepotArangeStart`, `opsDepotModAdd`, `opsDepotPlus`, `opsOpReplicaMajor`, `opsSampleNReplicaMajor`, `amFlattenReplicaMajor`, `amStaticUnbatchify`, `amCacheUsesBatchify`, `decMultistartEnvSelect`, `decBeamEnvSelect`, `opsGatherSqueezeDefault/DimDefault/SqueezeSize`, "
           "`opsSampleNReplaceCmp` are regenerated from utils/ops.py (harness/probes/ops.py) and unfolded by the C12 proofs")
 
 register(Unit("C12", "ops", run_c12, drivers=["drv_ops"],
-              lean_modules=["Rl4co.Props.C12.Batchify", "Rl4co.Props.C12.Select", "Rl4co.Spec.Ops"],
+              lean_modules=["Rl4co.Props.C12.Batchify", "Rl4co.Props.C12.Select", "Rl4co.Props.C12.OpsSpec", "Rl4co.Spec.Ops"],
               theorems=C12_THEOREMS, assumptions=[NOTE_T, NOTE_S, NOTE_P], replay=replay_c12, search=run_c12))
 register(Unit("C17", "ops", run_c17, drivers=["drv_ops"],
-              lean_modules=["Rl4co.Props.C17.Dataset", "Rl4co.Spec.Ops"],
+              lean_modules=["Rl4co.Props.C17.Dataset", "Rl4co.Props.C12.OpsSpec", "Rl4co.Spec.Ops"],
               theorems=C17_THEOREMS, assumptions=[NOTE_D, NOTE_PD], replay=replay_c17, search=run_c17))
